@@ -34,6 +34,14 @@ func main() {
 		os.Exit(2)
 	}
 	runtime.GOMAXPROCS(1)
+	if v := os.Getenv("VERIF_GOMAXPROCS"); v != "" {
+		// determinism proof only: the simulated schedule must not depend on it
+		var n int
+		fmt.Sscan(v, &n)
+		if n > 0 {
+			runtime.GOMAXPROCS(n)
+		}
+	}
 	switch os.Args[1] {
 	case "run":
 		cmdRun(os.Args[2:])
@@ -60,10 +68,12 @@ func cmdRun(args []string) {
 	fs.StringVar(&a.Known, "known", "", "")
 	fs.BoolVar(&a.Race, "race", false, "")
 	fs.StringVar(&a.RepoRoot, "repo", "/repo", "")
+	trace := fs.Bool("trace", false, "")
 	_ = fs.Parse(args)
 	loadKnown(a.Known)
 	start := time.Now()
 	b := newBatch(a.Engine, a.Property, a.Seed, a.Shard)
+	b.trace = *trace
 	deadline := start.Add(time.Duration(a.MaxSecs * float64(time.Second)))
 	for run := a.Shard; run < a.N; run += a.NShards {
 		if time.Now().After(deadline) {
@@ -71,7 +81,9 @@ func cmdRun(args []string) {
 			break
 		}
 		fmt.Fprintf(os.Stderr, "begin %d\n", run)
+		b.beginRun(uint64(run))
 		runOne(b, &a, uint64(run))
+		b.endRun()
 	}
 	b.WallS = time.Since(start).Seconds()
 	b.finish()
